@@ -434,6 +434,17 @@ def coverage_loops(idx, A):
                     return "false"
                 return None
             skip = {t: _all_finished_edge(t) for t in cfg.find("test")}
+            # ... or when a flag of the program says so that provably means it: `self.<F>` is false only in the constructor (no
+            # commands yet) and after a complete pass of this very loop, and every method that puts a command into the table sets it
+            inv = _nothing_to_do_flags(idx, A, cfg, head, sn, attr) if every else set()
+            for t in cfg.find("test"):
+                e_ = t.ast
+                neg_ = False
+                while isinstance(e_, ast.UnaryOp) and isinstance(e_.op, ast.Not):
+                    neg_ = not neg_
+                    e_ = e_.operand
+                if isinstance(e_, ast.Attribute) and isinstance(e_.value, ast.Name) and e_.value.id == sn and e_.attr in inv and skip.get(t) is None:
+                    skip[t] = "true" if neg_ else "false"
             seen_, work_ = set(), [cfg.entry]
             while work_:
                 x_ = work_.pop()
@@ -447,6 +458,54 @@ def coverage_loops(idx, A):
             on_all = cfg.exit not in seen_
         loops.append({"head": head, "var": var, "filter": filt, "starts": starts, "every": every, "on_all": on_all, "cfg": cfg, "for": head.ast})
     return cfg, loops
+
+
+def _nothing_to_do_flags(idx, A, cfg, head, sn, attr):
+    """Program attributes F with the invariant `not F  =>  every command of the table is finished`:
+      * `self.F = False` occurs only in __init__ and, in run(), at nodes every path to which has passed through `head` (the loop
+        that starts every command) and left it;
+      * every Program method that stores into the command table sets `self.F = True` on every path to its exit;
+      * nothing else assigns F (no store outside class Program)."""
+    out = set()
+    prog = A.program
+    cand = set()
+    for n in cfg.find("store"):
+        if n.meta.get("attr") and self_attr(n.ast, sn) == n.meta.get("attr") and isinstance(n.meta.get("value"), ast.Constant) and n.meta["value"].value is False:
+            cand.add(n.meta["attr"])
+    for F in sorted(cand):
+        ok = True
+        body_nodes = cfg.reachable([m for m, lab in head.succ if lab == "loop"], avoid={head})
+        for n in cfg.find("store", lambda x: x.meta.get("attr") == F and self_attr(x.ast, sn) == F):
+            v = n.meta.get("value")
+            if isinstance(v, ast.Constant) and v.value is False:
+                if n in body_nodes or not cfg.must_pass_through(cfg.entry, n, {head}):
+                    ok = False
+            elif not (isinstance(v, ast.Constant) and v.value is True):
+                ok = False
+        for nm, m in prog.methods.items():
+            if m is A.program_run:
+                continue
+            msn = K.self_name(m)
+            c2 = K.cfg_of(idx, m)
+            stores_f = c2.find("store", lambda x: x.meta.get("attr") == F and self_attr(x.ast, msn) == F)
+            table_stores = [x for x in own_nodes(m.node) if isinstance(x, (ast.Assign, ast.AugAssign)) and any(isinstance(t, ast.Subscript) and self_attr(t.value, msn) == attr for t in (x.targets if isinstance(x, ast.Assign) else [x.target]))]
+            table_stores += [x for x in own_nodes(m.node) if isinstance(x, ast.Call) and isinstance(x.func, ast.Attribute) and x.func.attr in ("update", "setdefault") and self_attr(x.func.value, msn) == attr]
+            trues = [x for x in stores_f if isinstance(x.meta.get("value"), ast.Constant) and x.meta["value"].value is True]
+            falses = [x for x in stores_f if x not in trues]
+            if nm == "__init__":
+                if any(not isinstance(x.meta.get("value"), ast.Constant) for x in stores_f):
+                    ok = False
+                continue
+            if falses:
+                ok = False
+            if table_stores and not (trues and c2.must_pass_through(c2.entry, c2.exit, set(trues))):
+                ok = False
+        for mod, f, n in K.scoped_nodes(idx):
+            if isinstance(n, ast.Attribute) and n.attr == F and isinstance(n.ctx, ast.Store) and not (f is not None and getattr(f, "cls", None) is prog):
+                ok = False
+        if ok:
+            out.add(F)
+    return out
 
 
 def _neg_lookup(test, var):
